@@ -13,6 +13,8 @@ use allsorts::cff::CFF;
 use allsorts::error::ParseError;
 use allsorts::font::{read_cmap_subtable, Font, GlyphTableFlags, MatchingPresentation};
 use allsorts::font_data::{DynamicFontTableProvider, FontData};
+use allsorts::get_name::fontcode_get_name;
+use allsorts::glyph_info;
 use allsorts::outline::{OutlineBuilder, OutlineSink};
 use allsorts::post::PostTable;
 use allsorts::subset::{self, prince};
@@ -23,8 +25,13 @@ use allsorts::tables::loca::LocaTable;
 use allsorts::tables::os2::Os2;
 use allsorts::tables::svg::SvgTable;
 use allsorts::tables::variable_fonts::avar::AvarTable;
+use allsorts::tables::variable_fonts::cvar::CvarTable;
 use allsorts::tables::variable_fonts::fvar::FvarTable;
-use allsorts::tables::{F2Dot14, Fixed, FontTableProvider, HeadTable, HheaTable, HmtxTable, MaxpTable, NameTable, SfntVersion};
+use allsorts::tables::variable_fonts::gvar::{GvarTable, NumPoints};
+use allsorts::tables::variable_fonts::hvar::HvarTable;
+use allsorts::tables::variable_fonts::mvar::MvarTable;
+use allsorts::tables::variable_fonts::stat::{ElidableName, StatTable};
+use allsorts::tables::{CvtTable, F2Dot14, Fixed, FontTableProvider, HeadTable, HheaTable, HmtxTable, MaxpTable, NameTable, SfntVersion};
 use allsorts::unicode::VariationSelector;
 use allsorts::{tag, variations};
 use pathfinder_geometry::line_segment::LineSegment2F;
@@ -464,6 +471,24 @@ fn advance<P: FontTableProvider + SfntVersion>(out: &mut GroupOut, p: P) {
         val(out, || font.horizontal_advance(g));
         val(out, || font.vertical_advance(g));
     }
+    // the free function behind them, on the tables as the provider hands them out (hhea + hmtx, vhea + vmtx)
+    let p = &font.font_table_provider;
+    if let Some(maxp) = sub(out, || p.read_table_data(tag::MAXP).and_then(|d| ReadScope::new(&d).read::<MaxpTable>())) {
+        for (hea, mtx) in [(tag::HHEA, tag::HMTX), (tag::VHEA, tag::VMTX)] {
+            if !val(out, || p.has_table(hea) && p.has_table(mtx)).unwrap_or(false) {
+                continue;
+            }
+            let hhea = match sub(out, || p.read_table_data(hea).and_then(|d| ReadScope::new(&d).read::<HheaTable>())) {
+                Some(h) => h,
+                None => continue,
+            };
+            if let Some(md) = sub(out, || p.read_table_data(mtx)) {
+                for g in probe_gids(n) {
+                    sub(out, || glyph_info::advance(&maxp, &hhea, &md, g));
+                }
+            }
+        }
+    }
 }
 
 fn glyph_image<'a>(out: &mut GroupOut, p: &Prov<'a>, log: &RefCell<(BTreeSet<u32>, bool)>) {
@@ -637,6 +662,12 @@ fn prince_subset(out: &mut GroupOut, p: &(impl FontTableProvider + SfntVersion))
         sub(out, || prince::subset(p, ids, target, k % 2 == 0).map(|v| v.len()));
     }
     sub(out, || prince::subset(p, &[0, 1, 2], prince::PrinceCmapTarget::MacRoman, true).map(|v| v.len()));
+    // the CFF2 -> CFF table conversion on its own
+    if has(out, p, tag::CFF2) {
+        for ids in [vec![0u16, 1, 2], vec![0, n.wrapping_sub(1)], vec![0, n]] {
+            sub(out, || prince::subset_cff2_table(p, &ids).map(|v| v.len()));
+        }
+    }
 }
 
 fn instance(out: &mut GroupOut, p: &(impl FontTableProvider + SfntVersion)) {
@@ -683,6 +714,141 @@ fn instance(out: &mut GroupOut, p: &(impl FontTableProvider + SfntVersion)) {
 
 fn axis_names(out: &mut GroupOut, p: &(impl FontTableProvider + SfntVersion)) {
     sub(out, || variations::axis_names(p).map(|v| v.len()));
+    var_tables(out, p);
+}
+
+/// The public readers of the variation tables on their own (what `variations::instance` uses them for, but at the
+/// probe glyph ids - the last glyph, one past it, 65535 - and at every index the table itself declares):
+/// fvar instances, avar maps, gvar per-glyph stores with every tuple's variation data and peak tuple, HVAR deltas,
+/// MVAR lookups, STAT axes / axis values / names, cvar applied to cvt.
+fn var_tables(out: &mut GroupOut, p: &impl FontTableProvider) {
+    if !has(out, p, tag::FVAR) {
+        return;
+    }
+    let fd = match sub(out, || p.read_table_data(tag::FVAR)) {
+        Some(d) => d,
+        None => return,
+    };
+    let fvar = match sub(out, || ReadScope::new(&fd).read::<FvarTable<'_>>()) {
+        Some(f) => f,
+        None => return,
+    };
+    val(out, || fvar.axes().take(64).count());
+    val(out, || fvar.instances().take(64).filter(|i| i.is_ok()).count());
+    let tuples = tuples_of(p);
+    let n = num_glyphs_of(p);
+    let gids = probe_gids(n);
+    if has(out, p, tag::AVAR) {
+        if let Some(d) = sub(out, || p.read_table_data(tag::AVAR)) {
+            if let Some(avar) = sub(out, || ReadScope::new(&d).read::<AvarTable<'_>>()) {
+                for m in val(out, || avar.segment_maps().take(64).collect::<Vec<_>>()).unwrap_or_default() {
+                    val(out, || m.axis_value_mappings().take(256).count());
+                    for raw in [-65536i32, -32768, -1, 0, 1, 21845, 65536] {
+                        val(out, || m.normalize(Fixed::from_raw(raw)));
+                    }
+                }
+            }
+        }
+    }
+    if has(out, p, tag::GVAR) {
+        if let Some(d) = sub(out, || p.read_table_data(tag::GVAR)) {
+            if let Some(gvar) = sub(out, || ReadScope::new(&d).read::<GvarTable<'_>>()) {
+                for k in [0u16, 1, 65535] {
+                    sub(out, || gvar.shared_tuple(k).map(|_| ()));
+                }
+                // the number of points of each glyph as its own glyf record gives it
+                // (GlyfRecord::number_of_points: on the record as read, and again once it is parsed)
+                let points: Vec<(u16, u16)> = val(out, || -> Option<Vec<(u16, u16)>> {
+                    let head = ReadScope::new(&p.read_table_data(tag::HEAD).ok()?).read::<HeadTable>().ok()?;
+                    let ld = p.read_table_data(tag::LOCA).ok()?;
+                    let loca = ReadScope::new(&ld).read_dep::<LocaTable<'_>>((usize::from(n), head.index_to_loc_format)).ok()?;
+                    let gd = p.read_table_data(tag::GLYF).ok()?;
+                    let mut glyf = ReadScope::new(&gd).read_dep::<GlyfTable<'_>>(&loca).ok()?;
+                    let mut gs: Vec<u16> = gids.clone();
+                    gs.extend(2..n.min(12));
+                    Some(
+                        gs.into_iter()
+                            .map(|g| {
+                                let a = glyf.records().get(usize::from(g)).and_then(|r| r.number_of_points().ok());
+                                let b = glyf.records_mut().get_mut(usize::from(g)).and_then(|r| r.parse().ok().and_then(|_| r.number_of_points().ok()));
+                                (g, b.or(a).unwrap_or(0))
+                            })
+                            .collect(),
+                    )
+                })
+                .flatten()
+                .unwrap_or_else(|| gids.iter().map(|g| (*g, 0)).collect());
+                for (g, np) in points {
+                    if let Some(Some(store)) = sub(out, || gvar.glyph_variation_data(g, NumPoints::new(np))) {
+                        let nh = val(out, || store.headers().count()).unwrap_or(0);
+                        for k in 0..nh.min(24) as u16 {
+                            sub(out, || store.variation_data(k).map(|v| v.len()));
+                        }
+                        sub(out, || store.variation_data(nh as u16).map(|v| v.len()));
+                        for h in val(out, || store.headers().take(24).collect::<Vec<_>>()).unwrap_or_default() {
+                            sub(out, || h.peak_tuple(&gvar).map(|_| ()));
+                            val(out, || h.tuple_index());
+                            val(out, || h.intermediate_region().is_some());
+                        }
+                    }
+                }
+            }
+        }
+    }
+    if has(out, p, tag::HVAR) {
+        if let Some(d) = sub(out, || p.read_table_data(tag::HVAR)) {
+            if let Some(hvar) = sub(out, || ReadScope::new(&d).read::<HvarTable<'_>>()) {
+                for t in &tuples {
+                    for &g in &gids {
+                        sub(out, || hvar.advance_delta(t, g));
+                        sub(out, || hvar.left_side_bearing_delta(t, g));
+                        sub(out, || hvar.right_side_bearing_delta(t, g));
+                    }
+                }
+            }
+        }
+    }
+    if has(out, p, tag::MVAR) {
+        if let Some(d) = sub(out, || p.read_table_data(tag::MVAR)) {
+            if let Some(mvar) = sub(out, || ReadScope::new(&d).read::<MvarTable<'_>>()) {
+                let mut tags: Vec<u32> = val(out, || mvar.value_records().take(64).map(|r| r.value_tag).collect()).unwrap_or_default();
+                tags.extend([tag::HASC, 0, 0xFFFF_FFFF]);
+                for t in &tuples {
+                    for &vt in &tags {
+                        val(out, || mvar.lookup(vt, t));
+                    }
+                }
+            }
+        }
+    }
+    if has(out, p, tag::STAT) {
+        if let Some(d) = sub(out, || p.read_table_data(tag::STAT)) {
+            if let Some(stat) = sub(out, || ReadScope::new(&d).read::<StatTable<'_>>()) {
+                let na = val(out, || stat.design_axes().take(64).filter(|a| a.is_ok()).count()).unwrap_or(0);
+                val(out, || stat.axis_value_tables().take(256).filter(|a| a.is_ok()).count());
+                for k in [0usize, na, 65535] {
+                    sub(out, || stat.design_axis(k).map(|a| a.axis_tag));
+                }
+                for ax in 0..(na as u16 + 1).min(8) {
+                    for raw in [0i32, 400 << 16, 700 << 16, -(1 << 16)] {
+                        val(out, || stat.name_for_axis_value(ax, Fixed::from_raw(raw), ElidableName::Include));
+                        val(out, || stat.name_for_axis_value(ax, Fixed::from_raw(raw), ElidableName::Exclude));
+                    }
+                }
+            }
+        }
+    }
+    if has(out, p, tag::CVAR) && has(out, p, tag::CVT) {
+        if let (Some(cd), Some(vd)) = (sub(out, || p.read_table_data(tag::CVT)), sub(out, || p.read_table_data(tag::CVAR))) {
+            if let Some(cvt) = sub(out, || ReadScope::new(&cd).read_dep::<CvtTable<'_>>(cd.len() as u32)) {
+                if let Some(cvar) = sub(out, || ReadScope::new(&vd).read_dep::<CvarTable<'_>>((fvar.axis_count(), cvt.values.len() as u32))) {
+                    for t in &tuples {
+                        sub(out, || cvar.apply(t, &cvt).map(|c| c.values.len()));
+                    }
+                }
+            }
+        }
+    }
 }
 
 fn kern(out: &mut GroupOut, p: &impl FontTableProvider) {
@@ -702,7 +868,16 @@ fn kern(out: &mut GroupOut, p: &impl FontTableProvider) {
             }
         }
     }
-    val(out, || k.to_owned());
+    // the owned copy, borrowed back: the same sub-tables through the second reader
+    if let Some(owned) = val(out, || k.to_owned()) {
+        let back = KernTable::from(&owned);
+        for st in val(out, || back.sub_tables().take(64).collect::<Vec<_>>()).unwrap_or_default().into_iter().flatten() {
+            val(out, || (st.is_horizontal(), st.is_minimum(), st.is_cross_stream(), st.is_override()));
+            for (l, r) in [(0u16, 0u16), (1, 2), (2, 1), (65535, 0)] {
+                val(out, || st.data().lookup(l, r));
+            }
+        }
+    }
 }
 
 fn svg(out: &mut GroupOut, p: &impl FontTableProvider) {
@@ -826,6 +1001,10 @@ fn post_name(out: &mut GroupOut, p: &impl FontTableProvider) {
             for id in [0u16, 1, 2, 4, 6, 16, 256, 65535] {
                 val(out, || name.string_for_id(id));
             }
+        }
+        // the second reader of name strings (best record by platform / encoding, decoded to a C string)
+        for id in [0u16, 1, 2, 3, 4, 6, 16, 17, 256, 65535] {
+            sub(out, || fontcode_get_name(&d, id).map(|s| s.map(|c| c.as_bytes().len())));
         }
     }
 }
